@@ -227,8 +227,15 @@ fn receive<T: Probeable>(rx: IpcReceiver<T>, via_set: bool, undecoded: bool, nms
     }
 }
 fn receive_inner<T: Probeable>(rx: IpcReceiver<T>, via_set: bool, undecoded: bool, nmsgs: u32) {
+    // the k-th result belongs to the k-th message sent (one result per message, in order)
+    let nth = std::cell::Cell::new(0i64);
+    let begin = || {
+        hist::log("msg.begin", nth.get(), 0, 0, "");
+        nth.set(nth.get() + 1);
+    };
     let mut handle = |r: Result<T, String>| match r {
         Ok(v) => {
+            begin();
             let mut f = Found::default();
             v.take(&mut f);
             hist::log("recv.ok", f.txs.len() as i64, f.rxs.len() as i64, f.regs.len() as i64, "");
@@ -247,6 +254,7 @@ fn receive_inner<T: Probeable>(rx: IpcReceiver<T>, via_set: bool, undecoded: boo
             drop(f);
         },
         Err(e) => {
+            begin();
             hist::log("recv.decode-err", 0, 0, 0, &e);
         },
     };
@@ -267,6 +275,7 @@ fn receive_inner<T: Probeable>(rx: IpcReceiver<T>, via_set: bool, undecoded: boo
                     IpcSelectionResult::MessageReceived(_, m) => {
                         got += 1;
                         if undecoded && got == 1 {
+                            begin();
                             hist::log("recv.undecoded", 0, 0, 0, "");
                             drop(m);
                         } else {
@@ -396,18 +405,27 @@ where
     if receiver_finished {
         // (a sender decoded from an attached *receiver* end is still an attached endpoint: socket
         // pairs are bidirectional, its nonce ends up unread at the held sender - not judged)
-        let any_rx_att = evs.iter().any(|e| e.op == "att" && e.s == "rx");
+        // attachments are judged per message when results and messages correspond one to one
+        let results = evs.iter().filter(|e| e.op == "msg.begin").count();
+        let one_to_one = results == n as usize;
+        let msg_of = |seq: u64| -> Option<i64> { if one_to_one { evs.iter().filter(|e| e.op == "msg.begin" && e.seq < seq).last().map(|e| e.a) } else { None } };
+        let has_att = |seq: u64, kind: &str| -> bool {
+            let mi = msg_of(seq);
+            evs.iter().any(|e| e.op == "att" && e.s == kind && mi.map(|m| m == e.a).unwrap_or(true))
+        };
         for e in evs.iter().filter(|e| e.op == "value.tx" && e.b == 1) {
             let nonce = 5000 + e.a;
+            let any_rx_att = has_att(e.seq, "rx");
             if !any_rx_att && !evs.iter().any(|w| w.op == "watch.got" && w.b == nonce) {
                 out.viol("foreign-endpoint:recv", format!("a decoded value contains a sender (position {}) that is not connected to any channel attached to the message", e.a));
             }
         }
         // a decoded receiver must be one of the attached ones: it holds that attachment's token
         // (-1 = nothing queued: only possible if it was decoded from an attached sender's end)
-        let any_tx_att = evs.iter().any(|e| e.op == "att" && e.s == "tx");
         for e in evs.iter().filter(|e| e.op == "value.rx") {
-            let attached = evs.iter().any(|a| a.op == "att" && a.s == "rx" && a.b == e.b);
+            let any_tx_att = has_att(e.seq, "tx");
+            let mi = msg_of(e.seq);
+            let attached = evs.iter().any(|a| a.op == "att" && a.s == "rx" && a.b == e.b && mi.map(|m| m == a.a).unwrap_or(true));
             if !(attached || (e.b == -1 && any_tx_att)) {
                 out.viol("foreign-endpoint:recv", format!("a decoded value contains a receiver (position {}) holding token {} - not one of the receivers attached to the messages", e.a, e.b));
             }
@@ -415,7 +433,8 @@ where
         // a decoded region must be one of the attached ones, with its contents (fill byte = id, length 64 + id)
         for e in evs.iter().filter(|e| e.op == "value.region") {
             let id = e.b - 64;
-            let attached = evs.iter().any(|a| a.op == "att" && a.s == "region" && a.b == id);
+            let mi = msg_of(e.seq);
+            let attached = evs.iter().any(|a| a.op == "att" && a.s == "region" && a.b == id && mi.map(|m| m == a.a).unwrap_or(true));
             if !attached || e.s == "MIXED" || e.c != (id as u8) as i64 {
                 out.viol("foreign-or-altered-region:recv", format!("a decoded value contains a region (position {}) of length {} starting with byte {}{} - not one of the attached regions with its contents", e.a, e.b, e.c, if e.s == "MIXED" { ", mixed contents" } else { "" }));
             }
@@ -465,7 +484,8 @@ impl Scenario for C16S {
         "case = receiver of one of 12 types (integers, strings, vectors, option, enum, sender, receiver, region, tuple and struct combinations) fed 1..3 messages built as raw bytes + raw attachment list (0..4 senders/receivers + 0..4 regions, shuffled): valid encodings; encodings of another type; encodings whose attachment indices are out of range, used twice or leave attachments unreferenced; random bytes of length 0..4096; truncations; in-flight byte corruption injected at the seam into the first packet of the chosen message; endpoints and regions inside a decoded value are probed for being the attached ones (sender: nonce reaches its watcher; receiver: holds its token; region: length and fill byte); received directly or through a receiver set, decoded or dropped undecoded; non-trivial = at least one message failed to decode or was dropped undecoded; distinct = distinct (case, schedule hash)"
     }
     fn died(&self, how: &str, panics: &str) -> Option<Violation> {
-        if how.starts_with("signal") {
+        // (signal 14 is the harness's own per-run alarm: not a verdict)
+        if how.starts_with("signal") && how != "signal 14" {
             return Some(Violation { sig: format!("abort:{}", how.replace(' ', "")), detail: format!("the receiving process was killed ({}) while handling an undecodable message; panics: {}", how, panics.trim()) });
         }
         None
